@@ -75,7 +75,7 @@ CLAIMED = {
             "DESIGN.md §7 C13"),
     "C14": ("fault_enumeration",
             "crash-point enumeration: for generated update histories on an on-disk journal every durable journal state (row count after each SQLite commit, observed through update/commit hooks) is a stop point (exhaustive per history); recovery compared with whole-message boundary states; second-level stops sampled",
-            "C12 histories run on a SqliteZoneHandler with a journal file; SQLite update/commit hooks on the journal's connection record, for every commit, the row count it makes durable and the serial visible in memory at that moment. For every such row count k the journal is copied, cut to k rows and recovered with recover_with_journal: recovery must succeed, the recovered zone must equal a whole-message boundary state not older than the last acknowledged message, its serial must not be below any serial visible before the stop, and the remaining history must continue identically. Stops inside the initial dump are their own class; a second stop during the continuation is enumerated for a sample.",
+            "C12 histories run on a SqliteZoneHandler with a journal file; SQLite update/commit hooks on the journal's connection record, for every commit, the row count it makes durable and the serial visible in memory at that moment. For every such row count k the journal is copied, cut to k rows and the zone restarted on it through SqliteZoneHandler::try_from_config (the server binary's path): recovery must succeed, the recovered zone must equal a whole-message boundary state not older than the last acknowledged message, its serial must not be below any serial visible before the stop, and the remaining history must continue identically. Stops inside the initial dump are their own class; a second stop during the continuation is enumerated for a sample.",
             "A stop tears between SQLite commits, which are observed, not assumed (atomicity of one commit is trusted). Boundary states are snapshots of the running server (C12 decides separately that they are the RFC states). Findings (no transaction around the dump / around a message's rows: both repaired in /repo; empty journal accepted; SOA row in its own commit: known) are attributed by stop position; failures at boundaries stay VIOLATIONs.",
             "DESIGN.md §7 C14"),
     "C15": ("exploration",
